@@ -62,6 +62,9 @@ def run(ck, progs):
                      "number of other regions / one / the length of the adjacency list")
     ck.rule("C19.6", "a region without neighbours gets INVALID_DIRECTION: the random draw of the star centre and of the full mesh excludes "
                      "`from`, so every path to it must have tested that another region exists (regions != 1)")
+    ck.rule("C19.7", "IsNeighbor rejects before dispatching on the geometry only by range checks of one region against the topology")
+    ck.rule("C19.8", "AddTopologyLink's search for an existing link ends only at that link or at the end of the (insertion-ordered) list")
+    ck.rule("C19.9", "every loop of get_random_neighbor that probes receivers is bounded by a counter it advances (a region without neighbours gets an answer)")
     for cfg, P in progs.items():
         _purity(ck, P, cfg)
         _dispatch(ck, P, cfg)
@@ -69,6 +72,9 @@ def run(ck, progs):
         _probe_all(ck, P, cfg)
         _counts(ck, P, cfg)
         _lonely(ck, P, cfg)
+        _isneighbor_no_blanket_reject(ck, P, cfg)
+        _graph_link_search(ck, P, cfg)
+        _random_choice_terminates(ck, P, cfg)
 
 
 def _purity(ck, P, cfg):
@@ -699,3 +705,100 @@ def _lonely(ck, P, cfg):
             else:
                 ck.holds("C19.6", inst, c.where, "the draw is reached only when another region exists", cfg)
     ck.expect("C19.6", n, 2, "random draws of the star / mesh helpers")
+
+
+def _isneighbor_no_blanket_reject(ck, P, cfg):
+    """C19.7 -- IsNeighbor must confirm every region GetReceiver can return.  For the grids, rings and the torus it does so by asking the
+    same helper in every direction; that argument fails if a `return false` can be reached BEFORE the geometry is dispatched under a
+    condition that is not a pure range check of from / to against the topology (degenerate sizes make GetReceiver return `from` itself)."""
+    f = P.fn("IsNeighbor")
+    inst = "no-blanket-reject@IsNeighbor"
+    sw = [s for s in f.walk() if s.k == "SwitchStmt"]
+    if len(sw) != 1:
+        ck.inconclusive("C19.7", inst, f.where, "IsNeighbor is not a single dispatch on the geometry", cfg)
+        return
+    g = f.cfg
+    bad = None
+    n = 0
+    for r in f.walk():
+        if r.k != "ReturnStmt" or not r.children or X.const_int(r.children[0]) != 0:
+            continue
+        if r.is_inside(sw[0]) or g.dominates(sw[0], r):
+            continue
+        n += 1
+        paths, _ = Q.path_conditions(f, r)
+        for conds in paths:
+            for core, t in conds:
+                txt = X.show(core)
+                names = {x.name for x in core.walk() if x.k == "DeclRefExpr" and x.d.get("sc") == "param"}
+                range_check = ("regions" in txt) and names <= {f.params[0]["name"], f.params[1]["name"], f.params[2]["name"]} and not (
+                    f.params[0]["name"] in names and f.params[1]["name"] in names)
+                if not range_check and bad is None:
+                    bad = (r, txt)
+    if bad:
+        ck.violated("C19.7", inst, bad[0].where, "IsNeighbor answers false before looking at the geometry when `%s`: in degenerate sizes (a one-region ring, a torus with one row or column) GetReceiver returns a region this test denies" % bad[1][:70], cfg)
+    else:
+        ck.holds("C19.7", inst, f.where, "%d early rejection(s), each a range check of one region against the topology" % n, cfg)
+
+
+def _graph_link_search(ck, P, cfg):
+    """C19.8 -- AddTopologyLink looks for an existing link from -> to before it appends a new node: the search must end only at the node
+    for `to` or at the end of the list (nodes are appended at the tail, so the list is in insertion order, not sorted); a search that can
+    stop earlier appends a duplicate, and CountDirections then exceeds the number of distinct neighbours."""
+    f = P.fn_opt("AddTopologyLink")
+    inst = "link-search@AddTopologyLink"
+    if f is None:
+        ck.inconclusive("C19.8", inst, "src/lib/topology/topology.c", "AddTopologyLink not found", cfg)
+        return
+    to = f.params[2]["name"]
+    loops = [l for l in f.walk() if l.k in ("WhileStmt", "ForStmt", "DoStmt") and any(x.k == "MemberExpr" and x.name == "neighbor" for x in l.walk())]
+    tails = [x for x in f.walk() if any(m_ in ("list_insert_tail", "list_insert_head") for m_ in x.macros)] or [c for c in f.calls() if c.callee and "insert" in c.callee]
+    if len(loops) != 1:
+        ck.inconclusive("C19.8", inst, f.where, "the search for an existing link was not recognised", cfg)
+        return
+    l = loops[0]
+    cond = [x for x in l.children if x.k != "Null"][0] if l.k != "ForStmt" else l.children[2]
+    rel = [x for x in cond.walk() if x.k == "BinaryOperator" and x.op in ("<", "<=", ">", ">=", "!=", "==") and any(y.k == "MemberExpr" and y.name == "neighbor" for y in x.walk())
+           and any(y.k == "DeclRefExpr" and y.name == to for y in x.walk())]
+    sorted_insert = any("sorted" in (m_ or "") or "ordered" in (m_ or "") for x in f.walk() for m_ in x.macros)
+    if not rel:
+        ck.inconclusive("C19.8", inst, cond.where, "the loop does not compare a node's neighbour with the requested one", cfg)
+    elif all(x.op == "!=" for x in rel):
+        ck.holds("C19.8", inst, cond.where, "the search goes on while the node's neighbour differs from the requested one: it ends at the link or at the end of the list", cfg)
+    elif sorted_insert:
+        ck.inconclusive("C19.8", inst, cond.where, "an ordered search over a list maintained by an ordered insertion: not decided", cfg)
+    else:
+        ck.violated("C19.8", inst, cond.where, "the search for an existing link stops on `%s`, i.e. it assumes a sorted list, but new links are appended at the tail: adding a link that exists behind a larger neighbour appends a duplicate node and CountDirections counts it" % X.show(rel[0])[:50], cfg)
+
+
+def _random_choice_terminates(ck, P, cfg):
+    """C19.9 -- the random choice over the grid candidates returns for every region, including one without neighbours (a 1x1 map): a loop in
+    get_random_neighbor that can only end by FINDING a valid receiver never ends there."""
+    f = P.fn("get_random_neighbor")
+    inst = "terminates@get_random_neighbor"
+    g = f.cfg
+    bad = None
+    n = 0
+    for l in f.walk():
+        if l.k not in ("WhileStmt", "DoStmt", "ForStmt"):
+            continue
+        if not any(c.callee == "GetReceiver" or (c.callee or "").startswith("get_neighbor_") for c in f.calls() if c.is_inside(l)):
+            continue
+        n += 1
+        if l.k == "ForStmt":
+            cond = l.children[2]
+        else:
+            cond = [x for x in l.children if x.k != "Null"][0 if l.k == "WhileStmt" else -1]
+        # a bound on the number of iterations: the condition (or a break) compares a counter that the loop advances
+        counters = {X.strip(u.children[0]).name for u in l.walk() if u.k == "UnaryOperator" and u.op in ("++", "--") and X.strip(u.children[0]).k == "DeclRefExpr"}
+        counters |= {X.strip(u.children[0]).name for u in l.walk() if u.k == "CompoundAssignOperator" and X.strip(u.children[0]).k == "DeclRefExpr"}
+        tests = [cond] + [i.children[0] for i in l.walk() if i.k == "IfStmt" and any(b.k in ("BreakStmt", "ReturnStmt") for b in i.walk())]
+        bounded = any(x.k == "DeclRefExpr" and x.name in counters for t_ in tests if t_ is not None and t_.k != "Null" for x in t_.walk())
+        if not bounded and bad is None:
+            bad = l
+    if n == 0:
+        ck.inconclusive("C19.9", inst, f.where, "no probing loop recognised", cfg)
+    elif bad is not None:
+        ck.violated("C19.9", inst, bad.where, "the loop that draws a direction ends only when a valid receiver is found: for a region without neighbours (a 1x1 map) GetReceiver(from, DIRECTION_RANDOM) never returns", cfg)
+    else:
+        ck.holds("C19.9", inst, f.where, "every probing loop is bounded by a counter it advances", cfg)
